@@ -66,11 +66,41 @@ def gen_case(rng, nops):
         else:
             ops.append(["gc", rng.choice(live + [1000 + k for k in range(4)])])
     ops.append(["adj"])
-    return {"children": children, "factory": factory, "ops": ops}
+    return {"children": children, "factory": factory, "ops": ops, "slotted": rng.random() < 0.25}
 
 
-def mkpool(c):
-    p = RecPool(unwire(c["supply"]), unwire(c["demand"]), unwire(c["util"]), unwire(c["alloc"]))
+_SLOT = []
+
+
+def slot_pool():
+    """a pool class that declares its attributes in __slots__ (as memory-conscious pool implementations with
+    thousands of instances do); everything else about it is ordinary"""
+    if not _SLOT:
+        from cobald.interfaces import Pool
+
+        class SlotPool(Pool):
+            __slots__ = ("_supply", "_demand", "_utilisation", "_allocation", "cid")
+
+            def __init__(self, supply, demand, utilisation, allocation):
+                self._supply, self._demand, self._utilisation, self._allocation = supply, demand, utilisation, allocation
+
+            supply = property(lambda self: self._supply)
+            utilisation = property(lambda self: self._utilisation)
+            allocation = property(lambda self: self._allocation)
+
+            @property
+            def demand(self):
+                return self._demand
+
+            @demand.setter
+            def demand(self, v):
+                self._demand = v
+        _SLOT.append(SlotPool)
+    return _SLOT[0]
+
+
+def mkpool(c, slotted=False):
+    p = (slot_pool() if slotted else RecPool)(unwire(c["supply"]), unwire(c["demand"]), unwire(c["util"]), unwire(c["alloc"]))
     p.cid = c["id"]
     return p
 
@@ -86,7 +116,8 @@ def snap(fp, objs):
 
 def impl(case):
     from cobald.composite.factory import FactoryPool
-    objs = {c["id"]: mkpool(c) for c in case["children"]}
+    slotted = bool(case.get("slotted"))
+    objs = {c["id"]: mkpool(c, slotted) for c in case["children"]}
     spawned = [0]
     tmpls = case["factory"]
 
@@ -94,7 +125,7 @@ def impl(case):
         t = dict(tmpls[spawned[0] % len(tmpls)])
         t["id"] = 1000 + spawned[0]
         spawned[0] += 1
-        p = mkpool(t)
+        p = mkpool(t, slotted)
         objs[p.cid] = p
         return p
 
